@@ -1,7 +1,7 @@
 /-
   Property C19 — the message signature depends only on what it is documented to fingerprint.
 
-  Model: `getMsgSig m b` (Sipsp/Model/Sig.lean, GetMsgSig of msg_sig.go) for a parsed-message object `m` whose `Buf` is
+  Model: `getMsgSigCore m b` (Sipsp/Model/Sig.lean, GetMsgSig of msg_sig.go) for a parsed-message object `m` whose `Buf` is
   the prefix `b[0 : m.bufLen]`, and `MsgSig.toStr`. Everything below is proved for ALL message objects `m` (any stored
   header list of any length, any flag word, any header count `n`, any field offsets) and ALL buffers; there is no size
   bound and no assumption that `m` came out of the parser other than the hypotheses spelled out in each statement.
@@ -40,7 +40,7 @@
         value(method) value(entry)* 'I' hhhh hh 'F' hhhh 'V' hhhh
       where a value is one lower-case hex digit, preceded by 'E' if it does not fit (≥ 16); `render_length_bounds`
       (18 + n ≤ length ≤ 19 + 2n), `render_alphabet` (only 0-9a-f and E I F V); `render_of_signature`: for what
-      `getMsgSig` returns with a method number below 16 the text is exactly 18 + n ≤ 26 characters, one digit per value.
+      `getMsgSigCore` returns with a method number below 16 the text is exactly 18 + n ≤ 26 characters, one digit per value.
   (5) `truncated_or_same`: if the header count exceeds the array, the verdict is Trunc, or else the whole result
       (signature, verdict, panic flag) is the one obtained with ANY longer array extending the stored one;
       `trunc_only_when_too_small`, `verdict_cases`, `fits_ok`.
@@ -56,11 +56,15 @@
   Scope notes (found by a sceptical review): "replies yield no signature" is `reply_no_signature` under
   `m.request = false`; C08 `reply_iff` shows that this holds for EVERY accepted status line, code `000` included (before
   the repair F22 / 07883de the code decided by `Status == 0` and the status line `SIP/2.0 000 x` got a signature). The
-  `edit_*` corollaries compare `getMsgSig (withHdrs m …)` with `getMsgSig m` on one frozen buffer / values object: they are
+  `edit_*` corollaries compare `getMsgSigCore (withHdrs m …)` with `getMsgSigCore m` on one frozen buffer / values object: they are
   statements about the stored header LIST; the statement about two parsed messages is `same_view_same_signature
   (_unconditional)` (its hypotheses are equalities of `get?` Options — both `none` is allowed and means both fields
   unreadable, which (8) + C04 exclude after a successful parse). `sig_chunking*` / `sig_capacity` assume zeroed caller
   arrays and buffers ≤ 65,535 bytes; `sig_capacity` the same recorded length and cap1 ≤ cap2.
+  Note on names: since the library repair F24 `GetMsgSig` first checks that the message is completely parsed (else
+  "empty"); the model's `getMsgSig` is that guard in front of `getMsgSigCore`, and every theorem of this file is stated
+  about `getMsgSigCore`; `sig_is_core_when_complete`: for a message in the final state (every successfully parsed
+  message: C05 `layout_*`) `getMsgSig = getMsgSigCore`, so they are theorems about GetMsgSig of a parsed message.
   NOT proved here:
   * no theorem relates two BYTE messages that differ by an inserted / removed / changed header line (that composition —
     C07 / HdrTyped blocks + C11 shifts + `same_view_same_signature_unconditional` — is carried out by the metamorphic oracle);
@@ -96,6 +100,7 @@ import Sipsp.Proofs.SigSpec
 import Sipsp.Proofs.SigCompose
 import Sipsp.Proofs.SigChars
 import Sipsp.Proofs.SigCovered
+import Sipsp.Proofs.SigGuard
 
 namespace Sipsp.C19
 open Sipsp
@@ -147,14 +152,14 @@ theorem sigOfView_viaBSig (method : Nat) (cid tag : Buf) (fs : List SigKey) :
 /-! ### (1) replies -/
 
 theorem reply_no_signature (m : PSIPMsg) (b : Buf) (h : m.request = false) :
-    getMsgSig m b = ({}, .empty, false) := getMsgSig_reply m b h
+    getMsgSigCore m b = ({}, .empty, false) := getMsgSig_reply m b h
 
-theorem reply_renders_empty (m : PSIPMsg) (b : Buf) (h : m.request = false) : (getMsgSig m b).1.toStr = "" := by
+theorem reply_renders_empty (m : PSIPMsg) (b : Buf) (h : m.request = false) : (getMsgSigCore m b).1.toStr = "" := by
   rw [getMsgSig_reply m b h]; exact toStr_empty _ ⟨rfl, rfl⟩
 
 /-! ### (2) at most eight entries, all of them 4-bit values -/
 
-theorem at_most_eight (m : PSIPMsg) (b : Buf) : (getMsgSig m b).1.hdrSig.length ≤ 8 := by
+theorem at_most_eight (m : PSIPMsg) (b : Buf) : (getMsgSigCore m b).1.hdrSig.length ≤ 8 := by
   cases hr : m.request
   · rw [getMsgSig_reply m b hr]; exact Nat.zero_le _
   · cases hc : m.pv.callid.callID.get? (b.extract 0 m.bufLen) with
@@ -166,7 +171,7 @@ theorem at_most_eight (m : PSIPMsg) (b : Buf) : (getMsgSig m b).1.hdrSig.length 
         rw [getMsgSig_request m b hr cid tag hc ht]
         exact msgSigLoop_len_le _ _ _ _ (show 0 < 8 by decide)
 
-theorem entries_below_16 (m : PSIPMsg) (b : Buf) : ∀ e ∈ (getMsgSig m b).1.hdrSig, e < 16 := by
+theorem entries_below_16 (m : PSIPMsg) (b : Buf) : ∀ e ∈ (getMsgSigCore m b).1.hdrSig, e < 16 := by
   cases hr : m.request
   · rw [getMsgSig_reply m b hr]; intro e he; cases he
   · cases hc : m.pv.callid.callID.get? (b.extract 0 m.bufLen) with
@@ -183,8 +188,8 @@ theorem entries_below_16 (m : PSIPMsg) (b : Buf) : ∀ e ∈ (getMsgSig m b).1.h
 theorem factorisation (m : PSIPMsg) (b : Buf) (hr : m.request = true) (cid tag : Buf)
     (hc : m.pv.callid.callID.get? (msgBuf m b) = some cid) (ht : m.pv.from_.tag.get? (msgBuf m b) = some tag)
     (hcov : Covered m) :
-    (getMsgSig m b).1 = sigOfView m.fl.methodNo cid tag (firsts m b) ∧
-    (getMsgSig m b).2.2 = ((getCallIDSig cid).2.2 || (firsts m b).any (fun k => k.viaPnc)) := by
+    (getMsgSigCore m b).1 = sigOfView m.fl.methodNo cid tag (firsts m b) ∧
+    (getMsgSigCore m b).2.2 = ((getCallIDSig cid).2.2 || (firsts m b).any (fun k => k.viaPnc)) := by
   rw [getMsgSig_request m b hr cid tag hc ht]
   exact msgSigLoop_view (b.extract 0 m.bufLen) m.hl.pflags m.hl.hdrs.toList m.fl.methodNo cid tag hcov
 
@@ -212,7 +217,7 @@ theorem same_view_same_signature (m m' : PSIPMsg) (b b' : Buf) (hr : m.request =
     (hc' : m'.pv.callid.callID.get? (msgBuf m' b') = some cid) (ht' : m'.pv.from_.tag.get? (msgBuf m' b') = some tag)
     (hcov : Covered m) (hcov' : Covered m')
     (hmeth : m'.fl.methodNo = m.fl.methodNo) (hview : firsts m' b' = firsts m b) :
-    (getMsgSig m' b').1 = (getMsgSig m b).1 ∧ (getMsgSig m' b').2.2 = (getMsgSig m b).2.2 := by
+    (getMsgSigCore m' b').1 = (getMsgSigCore m b).1 ∧ (getMsgSigCore m' b').2.2 = (getMsgSigCore m b).2.2 := by
   have h1 := factorisation m b hr cid tag hc ht hcov
   have h2 := factorisation m' b' hr' cid tag hc' ht' hcov'
   rw [h1.1, h1.2, h2.1, h2.2, hmeth, hview]
@@ -227,7 +232,7 @@ theorem same_view_same_result (m m' : PSIPMsg) (b b' : Buf) (hr : m'.request = m
     (ht : m'.pv.from_.tag.get? (msgBuf m' b') = m.pv.from_.tag.get? (msgBuf m b))
     (hpf : m'.hl.pflags = m.hl.pflags)
     (hn : (m'.hl.n > m'.hl.hdrs.size) ↔ (m.hl.n > m.hl.hdrs.size))
-    (hview : view m' b' = view m b) : getMsgSig m' b' = getMsgSig m b := by
+    (hview : view m' b' = view m b) : getMsgSigCore m' b' = getMsgSigCore m b := by
   cases hq : m.request
   · rw [getMsgSig_reply m b hq, getMsgSig_reply m' b' (hr.trans hq)]
   · cases hcc : m.pv.callid.callID.get? (b.extract 0 m.bufLen) with
@@ -270,8 +275,8 @@ theorem view_change_other (l1 l2 : List SigKey) (x x' : SigKey) (hx : x.type ∉
 theorem edit_same_firsts (m : PSIPMsg) (b : Buf) (hs' : List Hdr) (n' : Nat) (hcov : Covered m)
     (hcov' : FlagsCover m.hl.pflags hs')
     (hv : sigFirsts [] (hs'.map (hdrKey (msgBuf m b))) = sigFirsts [] (m.hl.hdrs.toList.map (hdrKey (msgBuf m b)))) :
-    (getMsgSig (withHdrs m hs' n') b).1 = (getMsgSig m b).1 ∧
-    (getMsgSig (withHdrs m hs' n') b).2.2 = (getMsgSig m b).2.2 := by
+    (getMsgSigCore (withHdrs m hs' n') b).1 = (getMsgSigCore m b).1 ∧
+    (getMsgSigCore (withHdrs m hs' n') b).2.2 = (getMsgSigCore m b).2.2 := by
   have hreq : (withHdrs m hs' n').request = m.request := rfl
   cases hr : m.request
   · rw [getMsgSig_reply m b hr, getMsgSig_reply _ b (hreq.trans hr)]; exact ⟨rfl, rfl⟩
@@ -299,8 +304,8 @@ theorem edit_same_firsts (m : PSIPMsg) (b : Buf) (hs' : List Hdr) (n' : Nat) (hc
     (read right-to-left: removing one) -/
 theorem edit_insert_other (m : PSIPMsg) (b : Buf) (l1 l2 : List Hdr) (x : Hdr) (n' : Nat) (hcov : Covered m)
     (hl : m.hl.hdrs.toList = l1 ++ l2) (hx : x.type ∉ Gen.sigHdrs) :
-    (getMsgSig (withHdrs m (l1 ++ x :: l2) n') b).1 = (getMsgSig m b).1 ∧
-    (getMsgSig (withHdrs m (l1 ++ x :: l2) n') b).2.2 = (getMsgSig m b).2.2 := by
+    (getMsgSigCore (withHdrs m (l1 ++ x :: l2) n') b).1 = (getMsgSigCore m b).1 ∧
+    (getMsgSigCore (withHdrs m (l1 ++ x :: l2) n') b).2.2 = (getMsgSigCore m b).2.2 := by
   apply edit_same_firsts m b _ n' hcov
   · intro h hh hs
     rcases List.mem_append.mp hh with h1 | h1
@@ -314,8 +319,8 @@ theorem edit_insert_other (m : PSIPMsg) (b : Buf) (l1 l2 : List Hdr) (x : Hdr) (
 /-- (3a, many) … any number of them, e.g. cleared entries at the end of a larger header array -/
 theorem edit_padding (m : PSIPMsg) (b : Buf) (l1 pad l2 : List Hdr) (n' : Nat) (hcov : Covered m)
     (hl : m.hl.hdrs.toList = l1 ++ l2) (hp : ∀ x ∈ pad, x.type ∉ Gen.sigHdrs) :
-    (getMsgSig (withHdrs m (l1 ++ pad ++ l2) n') b).1 = (getMsgSig m b).1 ∧
-    (getMsgSig (withHdrs m (l1 ++ pad ++ l2) n') b).2.2 = (getMsgSig m b).2.2 := by
+    (getMsgSigCore (withHdrs m (l1 ++ pad ++ l2) n') b).1 = (getMsgSigCore m b).1 ∧
+    (getMsgSigCore (withHdrs m (l1 ++ pad ++ l2) n') b).2.2 = (getMsgSigCore m b).2.2 := by
   apply edit_same_firsts m b _ n' hcov
   · intro h hh hs
     rcases List.mem_append.mp hh with h1 | h1
@@ -335,8 +340,8 @@ theorem edit_padding (m : PSIPMsg) (b : Buf) (l1 pad l2 : List Hdr) (n' : Nat) (
     repeated header) does not change the signature -/
 theorem edit_insert_repeat (m : PSIPMsg) (b : Buf) (l1 l2 : List Hdr) (x : Hdr) (n' : Nat) (hcov : Covered m)
     (hl : m.hl.hdrs.toList = l1 ++ l2) (hx : ∃ h ∈ l1, h.type = x.type) :
-    (getMsgSig (withHdrs m (l1 ++ x :: l2) n') b).1 = (getMsgSig m b).1 ∧
-    (getMsgSig (withHdrs m (l1 ++ x :: l2) n') b).2.2 = (getMsgSig m b).2.2 := by
+    (getMsgSigCore (withHdrs m (l1 ++ x :: l2) n') b).1 = (getMsgSigCore m b).1 ∧
+    (getMsgSigCore (withHdrs m (l1 ++ x :: l2) n') b).2.2 = (getMsgSigCore m b).2.2 := by
   obtain ⟨h0, hh0, ht0⟩ := hx
   apply edit_same_firsts m b _ n' hcov
   · intro h hh hs
@@ -354,8 +359,8 @@ theorem edit_insert_repeat (m : PSIPMsg) (b : Buf) (l1 l2 : List Hdr) (x : Hdr) 
     non-fingerprinted type) does not change the signature -/
 theorem edit_change_other (m : PSIPMsg) (b : Buf) (l1 l2 : List Hdr) (x x' : Hdr) (n' : Nat) (hcov : Covered m)
     (hl : m.hl.hdrs.toList = l1 ++ x :: l2) (hx : x.type ∉ Gen.sigHdrs) (hx' : x'.type ∉ Gen.sigHdrs) :
-    (getMsgSig (withHdrs m (l1 ++ x' :: l2) n') b).1 = (getMsgSig m b).1 ∧
-    (getMsgSig (withHdrs m (l1 ++ x' :: l2) n') b).2.2 = (getMsgSig m b).2.2 := by
+    (getMsgSigCore (withHdrs m (l1 ++ x' :: l2) n') b).1 = (getMsgSigCore m b).1 ∧
+    (getMsgSigCore (withHdrs m (l1 ++ x' :: l2) n') b).2.2 = (getMsgSigCore m b).2.2 := by
   apply edit_same_firsts m b _ n' hcov
   · intro h hh hs
     rcases List.mem_append.mp hh with h1 | h1
@@ -372,8 +377,8 @@ theorem edit_change_value (m : PSIPMsg) (b : Buf) (l1 l2 : List Hdr) (x x' : Hdr
     (hl : m.hl.hdrs.toList = l1 ++ x :: l2) (ht : x'.type = x.type)
     (hn : (x'.name.len == 1) = (x.name.len == 1))
     (hv : x.type = HdrVia → x'.val.get? (msgBuf m b) = x.val.get? (msgBuf m b)) :
-    (getMsgSig (withHdrs m (l1 ++ x' :: l2) n') b).1 = (getMsgSig m b).1 ∧
-    (getMsgSig (withHdrs m (l1 ++ x' :: l2) n') b).2.2 = (getMsgSig m b).2.2 := by
+    (getMsgSigCore (withHdrs m (l1 ++ x' :: l2) n') b).1 = (getMsgSigCore m b).1 ∧
+    (getMsgSigCore (withHdrs m (l1 ++ x' :: l2) n') b).2.2 = (getMsgSigCore m b).2.2 := by
   apply edit_same_firsts m b _ n' hcov
   · intro h hh hs
     rcases List.mem_append.mp hh with h1 | h1
@@ -477,20 +482,20 @@ theorem render_alphabet (s : MsgSig) : ∀ c ∈ s.toStr.toList, c ∈ sigAlphab
       · rw [e]; exact List.mem_append_right _ (by decide)
       · exact h4 _ c h1
 
-/-- what `getMsgSig` returns renders with exactly one hex digit per value when the method number is below 16 (the
+/-- what `getMsgSigCore` returns renders with exactly one hex digit per value when the method number is below 16 (the
     parser's method numbers are 1 … 15): 18 + (number of entries) ≤ 26 characters -/
-theorem render_of_signature (m : PSIPMsg) (b : Buf) (hm : (getMsgSig m b).1.method < 16)
-    (h : ¬ ((getMsgSig m b).1.method = MUndef ∧ (getMsgSig m b).1.hdrSig = [])) :
-    (getMsgSig m b).1.toStr =
-      String.ofList ([hexDigit (getMsgSig m b).1.method] ++ (getMsgSig m b).1.hdrSig.map hexDigit ++
-        sigTail (getMsgSig m b).1) ∧
-    (getMsgSig m b).1.toStr.length = 18 + (getMsgSig m b).1.hdrSig.length ∧
-    (getMsgSig m b).1.toStr.length ≤ 26 := by
+theorem render_of_signature (m : PSIPMsg) (b : Buf) (hm : (getMsgSigCore m b).1.method < 16)
+    (h : ¬ ((getMsgSigCore m b).1.method = MUndef ∧ (getMsgSigCore m b).1.hdrSig = [])) :
+    (getMsgSigCore m b).1.toStr =
+      String.ofList ([hexDigit (getMsgSigCore m b).1.method] ++ (getMsgSigCore m b).1.hdrSig.map hexDigit ++
+        sigTail (getMsgSigCore m b).1) ∧
+    (getMsgSigCore m b).1.toStr.length = 18 + (getMsgSigCore m b).1.hdrSig.length ∧
+    (getMsgSigCore m b).1.toStr.length ≤ 26 := by
   have he := entries_below_16 m b
   have h8 := at_most_eight m b
-  have hs : (getMsgSig m b).1.toStr =
-      String.ofList ([hexDigit (getMsgSig m b).1.method] ++ (getMsgSig m b).1.hdrSig.map hexDigit ++
-        sigTail (getMsgSig m b).1) := by
+  have hs : (getMsgSigCore m b).1.toStr =
+      String.ofList ([hexDigit (getMsgSigCore m b).1.method] ++ (getMsgSigCore m b).1.hdrSig.map hexDigit ++
+        sigTail (getMsgSigCore m b).1) := by
     rw [toStr_eq _ h, sigCh_small _ hm, flatMap_sigCh_small _ he]
   refine ⟨hs, ?_⟩
   rw [hs, String.length_ofList, List.length_append, List.length_append, sigTail_length, List.length_map,
@@ -500,7 +505,7 @@ theorem render_of_signature (m : PSIPMsg) (b : Buf) (hm : (getMsgSig m b).1.meth
 /-! ### (5) header array too small -/
 
 theorem verdict_cases (m : PSIPMsg) (b : Buf) :
-    (getMsgSig m b).2.1 = .ok ∨ (getMsgSig m b).2.1 = .trunc ∨ (getMsgSig m b).2.1 = .empty := by
+    (getMsgSigCore m b).2.1 = .ok ∨ (getMsgSigCore m b).2.1 = .trunc ∨ (getMsgSigCore m b).2.1 = .empty := by
   cases hr : m.request
   · rw [getMsgSig_reply m b hr]; exact Or.inr (Or.inr rfl)
   · cases hc : m.pv.callid.callID.get? (b.extract 0 m.bufLen) with
@@ -517,7 +522,7 @@ theorem verdict_cases (m : PSIPMsg) (b : Buf) :
           · exact Or.inr (Or.inl rfl)
           · exact Or.inl rfl
 
-theorem trunc_only_when_too_small (m : PSIPMsg) (b : Buf) (h : (getMsgSig m b).2.1 = .trunc) :
+theorem trunc_only_when_too_small (m : PSIPMsg) (b : Buf) (h : (getMsgSigCore m b).2.1 = .trunc) :
     m.request = true ∧ m.hl.n > m.hl.hdrs.size := by
   cases hr : m.request
   · rw [getMsgSig_reply m b hr] at h; cases h
@@ -538,7 +543,7 @@ theorem trunc_only_when_too_small (m : PSIPMsg) (b : Buf) (h : (getMsgSig m b).2
 
 /-- all headers fit: a request never gets the truncated indication -/
 theorem fits_ok (m : PSIPMsg) (b : Buf) (hr : m.request = true) (hn : m.hl.n ≤ m.hl.hdrs.size) :
-    (getMsgSig m b).2.1 = .ok := by
+    (getMsgSigCore m b).2.1 = .ok := by
   rcases verdict_cases m b with h | h | h
   · exact h
   · have := (trunc_only_when_too_small m b h).2; omega
@@ -557,8 +562,8 @@ theorem fits_ok (m : PSIPMsg) (b : Buf) (hr : m.request = true) (hn : m.hl.n ≤
 /-- more headers than the array holds: the verdict is Trunc, or else the result — signature, verdict and panic flag —
     is the one obtained with ANY longer array that extends the stored one (so nothing was missed) -/
 theorem truncated_or_same (m : PSIPMsg) (b : Buf) (hn : m.hl.n > m.hl.hdrs.size) :
-    (getMsgSig m b).2.1 = .trunc ∨
-    ∀ (extra : List Hdr) (n' : Nat), getMsgSig (withHdrs m (m.hl.hdrs.toList ++ extra) n') b = getMsgSig m b := by
+    (getMsgSigCore m b).2.1 = .trunc ∨
+    ∀ (extra : List Hdr) (n' : Nat), getMsgSigCore (withHdrs m (m.hl.hdrs.toList ++ extra) n') b = getMsgSigCore m b := by
   cases hr : m.request
   · right; intro extra n'
     rw [getMsgSig_reply m b hr, getMsgSig_reply _ b (show (withHdrs m _ n').request = false from hr)]
@@ -613,7 +618,7 @@ example : (firsts (exM 10) exMsg).map (fun k => (k.type, k.compact)) =
     [(HdrVia, false), (HdrFrom, true), (HdrTo, false), (HdrCallID, false), (HdrCSeq, false)] := by decide +kernel
 
 /-- test: its signature -/
-example : getMsgSig (exM 10) exMsg =
+example : getMsgSigCore (exM 10) exMsg =
     ({ method := 2, cidSLen := 1, cidSig := 10, fromSig := 64, viaBSig := 80, hdrSig := [6, 11, 5, 0, 2] },
      .ok, false) := by decide +kernel
 
@@ -622,13 +627,13 @@ example : ({ method := 2, cidSLen := 1, cidSig := 10, fromSig := 64, viaBSig := 
              hdrSig := [6, 11, 5, 0, 2] } : MsgSig).toStr = "26b502I000a01F0040V0050" := by decide +kernel
 
 /-- test (5): an array of 3 for 8 headers: truncated indication, entries of the stored part only -/
-example : (exM 3).hl.n = 8 ∧ (exM 3).hl.hdrs.size = 3 ∧ getMsgSig (exM 3) exMsg =
+example : (exM 3).hl.n = 8 ∧ (exM 3).hl.hdrs.size = 3 ∧ getMsgSigCore (exM 3) exMsg =
     ({ method := 2, cidSLen := 1, cidSig := 10, fromSig := 64, viaBSig := 80, hdrSig := [6, 11] },
      .trunc, false) := by decide +kernel
 
 /-- test (5), the observation of the header comment: an array of 6 holds every fingerprinted header of the message
     (the signature is complete), still the verdict is Trunc — the non-fingerprinted Subject header sits in `seen` -/
-example : getMsgSig (exM 6) exMsg =
+example : getMsgSigCore (exM 6) exMsg =
     ({ method := 2, cidSLen := 1, cidSig := 10, fromSig := 64, viaBSig := 80, hdrSig := [6, 11, 5, 0, 2] },
      .trunc, false) := by decide +kernel
 
@@ -638,8 +643,8 @@ example : ({ fl := (parseFLine "SIP/2.0 200 OK\r\nX".toUTF8.data 0 {}).2.2 } : P
 
 /-- use of (3a): an extra header of type "other" (e.g. another Subject) at position 2, any count -/
 example (x : Hdr) (hx : x.type = HdrOther) (n' : Nat) :
-    (getMsgSig (withHdrs (exM 10) ((exM 10).hl.hdrs.toList.take 2 ++ x :: (exM 10).hl.hdrs.toList.drop 2) n')
-      exMsg).1 = (getMsgSig (exM 10) exMsg).1 :=
+    (getMsgSigCore (withHdrs (exM 10) ((exM 10).hl.hdrs.toList.take 2 ++ x :: (exM 10).hl.hdrs.toList.drop 2) n')
+      exMsg).1 = (getMsgSigCore (exM 10) exMsg).1 :=
   (edit_insert_other (exM 10) exMsg _ _ x n' exCovered (List.take_append_drop 2 _).symm
     (by rw [hx]; decide)).1
 
@@ -648,7 +653,7 @@ example (x : Hdr) (hx : x.type = HdrOther) (n' : Nat) :
 def exUncovered : PSIPMsg :=
   { hl := { pflags := 2, n := 2, hdrs := #[{ type := HdrFrom, name := ⟨0, 4⟩ }, { type := HdrTo, name := ⟨0, 2⟩ }] } }
 
-example : (getMsgSig exUncovered #[]).1.hdrSig = [3] ∧
+example : (getMsgSigCore exUncovered #[]).1.hdrSig = [3] ∧
     (sigOfView 0 #[] #[] (firsts exUncovered #[])).hdrSig = [3, 5] := by decide +kernel
 
 /-! ### composition with chunking (C01) and capacities (C13) (proved in `Sipsp.Proofs.SigCompose`) -/
@@ -767,5 +772,14 @@ theorem factorisation_unconditional : type_of% @Sipsp.svc_factorisation := @Sips
     the same restricted view have the same signature and the same "Go would panic" flag: no side condition on the
     flag words left -/
 theorem same_view_same_signature_unconditional : type_of% @Sipsp.svc_same_view_same_signature := @Sipsp.svc_same_view_same_signature
+
+/-! ### GetMsgSig = completeness guard + core (proved in `Sipsp.Proofs.SigGuard`) -/
+
+/-- on a completely parsed message (final state, or the "Content-Length required but missing" end state) the signature
+    function is its core -/
+theorem sig_is_core_when_complete : type_of% @Sipsp.getMsgSig_complete := @Sipsp.getMsgSig_complete
+
+/-- a reply never has a signature -/
+theorem sig_reply_empty : type_of% @Sipsp.getMsgSig_reply_empty := @Sipsp.getMsgSig_reply_empty
 
 end Sipsp.C19
